@@ -77,6 +77,17 @@ def match(p, n, env: Env) -> bool:
         return match(p, n.value, env)  # awaits are transparent: one pattern serves the sync and the async twin
     if type(p) is not type(n):
         return False
+    if isinstance(p, ast.Compare) and len(p.ops) == 1 and isinstance(p.ops[0], (ast.Eq, ast.NotEq)) and len(n.ops) == 1 and type(n.ops[0]) is type(p.ops[0]):
+        # == and != are symmetric: accept either operand order
+        e1 = Env(env)
+        if match(p.left, n.left, e1) and match(p.comparators[0], n.comparators[0], e1):
+            env.update(e1)
+            return True
+        e2 = Env(env)
+        if match(p.left, n.comparators[0], e2) and match(p.comparators[0], n.left, e2):
+            env.update(e2)
+            return True
+        return False
     if isinstance(p, ast.AST):
         for fld in p._fields:
             if fld in ("ctx", "type_comment", "kind", "lineno", "col_offset", "end_lineno", "end_col_offset", "type_params"):
